@@ -46,10 +46,14 @@ Lattice == [i \in 1..(7 * 9 * 6 * 5 * 3 * 2 * 4) |->
                  w == (k \div 11340) % 4
              IN <<t, rc, mc, IF t \in {1, 2, 3} THEN rom % 32 ELSE rom, hi, IF t \in {1, 2, 3} THEN mode ELSE 0,
                   WindowAddrs[2 * w + 1 + (k % 2)]>>]
-All == Full1 \o Full3 \o Lattice
-Mine == SelectSeq([i \in 1..Len(All) |-> i], LAMBDA i : i % Shards = Shard)
+N1 == Len(Full1)
+N3 == Len(Full3)
+NL == Len(Lattice)
+Total == N1 + N3 + NL
+Arg(k) == IF k <= N1 THEN Full1[k] ELSE IF k <= N1 + N3 THEN Full3[k - N1] ELSE Lattice[k - N1 - N3]     \* k in 1..Total
+Count == IF Total > Shard THEN ((Total - 1 - Shard) \div Shards) + 1 ELSE 0
 
-ASSUME PrintT(<<"GEN_CART", Len(All), Len(Mine)>>)
-ASSUME ndJsonSerialize(OutFile, [j \in 1..Len(Mine) |->
-          LET x == All[Mine[j]] IN Rec(x[1], x[2], x[3], x[4], x[5], x[6], x[7])])
+ASSUME PrintT(<<"GEN_CART", Total, Count>>)
+ASSUME ndJsonSerialize(OutFile, [j \in 1..Count |->
+          LET x == Arg(1 + Shard + (j - 1) * Shards) IN Rec(x[1], x[2], x[3], x[4], x[5], x[6], x[7])])
 =============================================================================
